@@ -384,6 +384,9 @@ def _expand(hist):
     install_stubs()
     base = build(hist)
     evs = base.enabled()
+    base_brackets = dict(base.brackets)
+    base_inside = bool(base.pending) or base.gate_task == "SPAMAN:Sequence Pump"
+    base_canon = base.canon()
     base.close()
     out = []
     for ev in evs:
@@ -407,6 +410,24 @@ def _expand(hist):
         if viol is None and w.loop.exceptions:
             viol = None  # task exceptions are C09's business (pump death); recorded in canon 'dead'
         out.append((ev, w.canon(), viol, len(w.log) - n0))
+        w.close()
+    # probe (not a transition of the graph): the manager context is left while the pump is inside a started phase - the
+    # CancelledError the phase then gets is a raise like any other, and the phase is still closed by its finished event
+    if any(v > 0 for v in base_brackets.values()) and base_inside:
+        w = build(hist)
+        n0 = len(w.log)
+        with w.loop.running():
+            t = w.loop.create_task(w.man.__aexit__(None, None, None), name="HARNESS:exit")
+        w.settle()
+        w.settle()
+        viol = w.viol
+        if viol is None:
+            for k in ("LOCATING", "CONNECTION"):
+                if w.brackets[k] > 0:
+                    viol = ("bracket-open-on-cancel", f"the manager was exited while the pump was inside a started {k} phase: the "
+                                                      f"cancelled phase never announced {k}_FINISHED "
+                                                      f"(deliveries after the exit: {[d[0] for d in w.log[n0:]]})")
+        out.append(("probe:exit", base_canon, viol, len(w.log) - n0))
         w.close()
     return hist, out
 
@@ -468,6 +489,7 @@ def run(ctx):
     closed = False
     deliveries = 0
     viol_keys = {}
+    probes = 0
     while frontier:
         if depth >= cap:
             ctx.cap(f"BFS depth cap {cap} reached with {len(frontier)} unexpanded states; all states up to depth {cap} expanded")
@@ -478,6 +500,7 @@ def run(ctx):
             for ev, canon, viol, nd in outs:
                 transitions += 1
                 deliveries += nd
+                probes += ev == "probe:exit"
                 h2 = tuple(hist) + (ev,)
                 if viol:
                     key = f"C08|{viol[0]}|{_site(h2)}"
@@ -501,6 +524,7 @@ def run(ctx):
     ctx.set("traces_validated_against_impl", transitions)
     ctx.set("deliveries_checked", deliveries)
     ctx.set("bfs_depth", depth)
+    ctx.set("exit_probes_inside_a_started_phase", probes)
     ctx.set("closure_reached", closed)
     ctx.set("exhaustive", closed)
     ctx.set("distinct_manager_states", len({c[:5] for c in seen}))
@@ -529,6 +553,8 @@ def replay(ctx, data):
     install_stubs()
     h = tuple(data["history"])
     hist, outs = _expand(h[:-1])
+    if h[-1] == "probe:exit" and not any(ev == "probe:exit" for ev, c, v, nd in outs):
+        raise core.HarnessError("replay: the pump is not inside a started phase after this history")
     for ev, canon, viol, nd in outs:
         if ev == h[-1] and viol:
             ctx.violation(f"C08|{viol[0]}|{_site(h)}", viol[1], data)
